@@ -128,10 +128,17 @@ func runC19(c *Ctx) {
 
 	R.Rule("R-toolong-close", "E2", "ErrTooLongLine from the command loop's read is answered 500 and the loop returns without dispatching", 2)
 	if f := c.A.Func("(*Server).handleConn"); f != nil {
+		// the loop may recognise the refusal by identity (err == ErrTooLongLine) or with errors.Is
+		tooLong := `(*Conn).readLine(param1)#1 == ErrTooLongLine`
+		allInstrs(f, func(in ssa.Instruction) {
+			if call, ok := in.(*ssa.Call); ok && describe(call) == `errors.Is((*Conn).readLine(param1)#1,ErrTooLongLine)` {
+				tooLong = `errors.Is((*Conn).readLine(param1)#1,ErrTooLongLine) == true`
+			}
+		})
 		for _, rl := range s.Find(f, lReadLine) {
 			rl := rl
 			c.obFollowH("500 for a too long line", f, func(in ssa.Instruction) bool { return in == rl }, []string{"reply:500"},
-				`(*Conn).readLine(param1)#1 != nil`, `(*Conn).readLine(param1)#1 == ErrTooLongLine`, `(*Conn).readLine(param1)#1 != EOF`, `errors.Is((*Conn).readLine(param1)#1,ErrClosed) == false`)
+				`(*Conn).readLine(param1)#1 != nil`, tooLong, `(*Conn).readLine(param1)#1 != EOF`, `errors.Is((*Conn).readLine(param1)#1,ErrClosed) == false`)
 		}
 		for _, site := range s.Find(f, "call:(*Conn).handle") {
 			c.obUnreach("dispatch", site, `(*Conn).readLine(param1)#1 != nil`)
